@@ -1,0 +1,14 @@
+//go:build verif
+
+package scrollbar
+
+// Contracts for contract-based deductive verification (read by /verif/govc). Comment-only.
+
+/*@
+-- Draw (C19): no division by zero, writes only through win.SetCell.
+func (m *Model) Draw(win vaxis.Window)
+  requires win: WinOK(win)
+  ensures C19_contain: OutsideKept(win)
+  loop 1 invariant keep: OutsideKept(win)
+  loop 1 invariant ok: WinOK(win)
+@*/
